@@ -1,6 +1,6 @@
 """Roles of attribute names in the analysed program (set when an Analysis is built): which attributes hold callLater()
 handles ('alarm' fields) and which hold LoopingCalls.  Rules ask by role, not by the name the repository happens to use."""
-_ROLES = {"alarm": {"alarm"}, "loop": {"timer"}, "mutable": set(), "interval": {"interval"}}
+_ROLES = {"alarm": {"alarm"}, "loop": {"timer"}, "mutable": set(), "interval": {"interval"}, "qos0": {"interval"}}
 
 
 def set_roles(roles):
@@ -25,14 +25,29 @@ def is_interval_field(name):
     return name in _ROLES["interval"]
 
 
-def no_interval(facts, obj=None):
-    """Do the facts of a path say that a request has no retry-interval object (tested falsy or None)?  Such a request (QoS 0)
-    is never armed."""
+def _marks(facts, obj):
+    marks = _ROLES.get("qos0", _ROLES["interval"])
+    neg = pos = False
     for k, v in facts.items():
-        if v is False and isinstance(k, tuple) and k[0] in ("truthy", "nonnull") and isinstance(k[1], tuple) and len(k[1]) == 3 \
-                and k[1][0] == "attr" and k[1][2] in _ROLES["interval"] and (obj is None or k[1][1] == obj):
-            return True
-    return False
+        if isinstance(k, tuple) and k[0] in ("truthy", "nonnull") and isinstance(k[1], tuple) and len(k[1]) == 3 \
+                and k[1][0] == "attr" and k[1][2] in marks and (obj is None or k[1][1] == obj):
+            if v is False:
+                neg = True
+            elif v is True:
+                pos = True
+    return neg, pos
+
+
+def no_interval(facts, obj=None):
+    """Do the facts of a path say that a request has no retry-interval object (one of the fields that mark a never-armed, QoS 0
+    request tested falsy or None)?"""
+    return _marks(facts, obj)[0]
+
+
+def interval_conflict(facts, obj=None):
+    """Two markers of the same request tested opposite ways (they are set together, so the path cannot happen)."""
+    neg, pos = _marks(facts, obj)
+    return neg and pos
 
 
 def no_interval_conds(conds, obj=None):
@@ -42,6 +57,6 @@ def no_interval_conds(conds, obj=None):
             t, pol = t[1], not pol
         if isinstance(t, tuple) and t and t[0] == "nonnull":
             t = t[1]
-        if pol is False and isinstance(t, tuple) and len(t) == 3 and t[0] == "attr" and t[2] in _ROLES["interval"] and (obj is None or t[1] == obj):
+        if pol is False and isinstance(t, tuple) and len(t) == 3 and t[0] == "attr" and t[2] in _ROLES.get("qos0", _ROLES["interval"]) and (obj is None or t[1] == obj):
             return True
     return False
